@@ -96,6 +96,10 @@ func (ds *DirStructure) EnsureAbsPath(dirPath string) error {
 	if err != nil {
 		return fmt.Errorf("failed to get relative path: %w", err)
 	}
+	// Rel cleans the path: ".." elements may have led it out of scope again.
+	if relPath == ".." || strings.HasPrefix(relPath, ".."+string(filepath.Separator)) {
+		return fmt.Errorf(`path "%s" is outside of DirStructure scope`, dirPath)
+	}
 
 	// split to path elements
 	pathDirs := strings.Split(filepath.ToSlash(relPath), "/")
